@@ -3,7 +3,7 @@ import json
 from harness.enc import IdMap, tag, untag, table_from, proj_table
 from harness import watchdog
 
-FN = {'ident_a': lambda a: a, 'pair_ab': lambda a, b: (a, b)}
+FN = {'ident_a': lambda a: a, 'ident_b': lambda b: b, 'pair_ab': lambda a, b: (a, b)}
 MODEFN = lambda l, r: [r, l]
 TIMEOUTS = [0]
 MODES = {'none': None, 'l': 'l', 'r': 'r', '0': 0, '1': 1, 'fn': MODEFN}
@@ -18,6 +18,31 @@ def keyarg(ks, spelling):
     if spelling == 'tuple':
         return tuple(items)
     return items
+
+
+def render_call(left, right, lk, rk, op, mode, spelling, how, n):
+    """one call plan as a thunk on the real objects; op: join | xor | leftjoin (= x*y + x/y on the same two objects);
+    how: 'operator' (x * y, x / y; implicit keys, default mode) or a method call; n rotates the spelling of the mode"""
+    if how == 'operator':
+        return {'join': lambda: left * right, 'xor': lambda: left / right, 'leftjoin': lambda: left * right + left / right}[op]
+    kw = {}
+    if spelling != 'none':
+        kw['lcols'] = keyarg(lk, spelling)
+        if spelling != 'same':                  # 'same': rcols omitted, defaults to lcols
+            kw['rcols'] = keyarg(rk, spelling)
+    kwj = dict(kw)
+    if mode != 'none' or how == 'method_mode':
+        kwj['mode'] = MODES[mode]
+        if mode in MODE_SPELLINGS:
+            kwj['mode'] = MODE_SPELLINGS[mode][n % 4]
+    if op == 'join':
+        return lambda: left.join(right, **kwj)
+    if op == 'leftjoin':
+        return lambda: left.join(right, **kwj) + left.xor(right, **kw)
+    kwx = dict(kw)
+    if mode == 'r':
+        kwx['mode'] = ['r', 'right', 1, 'R'][n % 4]
+    return lambda: left.xor(right, **kwx)
 
 
 def observe(x, y, lk, rk, op, mode, spelling, how):
@@ -46,24 +71,7 @@ def observe(x, y, lk, rk, op, mode, spelling, how):
     other = dy
     if how == 'method' and y['rows'] and (len(x['rows']) + 2 * len(y['rows'])) % 5 == 0:
         other = {c: list(dict.__getitem__(dy, c)) for c in dict.keys(dy)}     # a plain dict of column lists
-    if how == 'operator':
-        f = (lambda: dx * dy) if op == 'join' else (lambda: dx / dy)
-    else:
-        kw = {}
-        if not implicit:
-            kw['lcols'] = keyarg(lk, spelling)
-            if spelling != 'same':                  # 'same': rcols omitted, defaults to lcols
-                kw['rcols'] = keyarg(rk, spelling)
-        if op == 'join':
-            if mode != 'none' or how == 'method_mode':
-                kw['mode'] = MODES[mode]
-                if mode in MODE_SPELLINGS:
-                    kw['mode'] = MODE_SPELLINGS[mode][(len(x['rows']) + len(y['rows'])) % 4]
-            f = lambda: dx.join(other, **kw)
-        else:
-            if mode == 'r':
-                kw['mode'] = ['r', 'right', 1, 'R'][(len(x['rows']) + len(y['rows'])) % 4]
-            f = lambda: dx.xor(other, **kw)
+    f = render_call(dx, dy if how == 'operator' else other, lk, rk, op, mode, spelling, how, len(x['rows']) + len(y['rows']))
     if TIMEOUTS[0] >= 25:       # enough evidence of non-termination; do not burn CPU on more
         return None
     status, val = watchdog.call(f, seconds=3.0)
@@ -77,6 +85,78 @@ def observe(x, y, lk, rk, op, mode, spelling, how):
         out = {'kind': 'timeout'}
     return {'op': op, 'x': x, 'y': y, 'lk': lk, 'rk': rk, 'mode': mode, 'implicit': implicit, 'spelling': spelling, 'how': how0,
             'out': out, 'x_after': proj_table(dx, ids), 'y_after': proj_table(dy, ids)}
+
+
+# ---- histories on ONE pair of operand objects (enumerated by TLC: spec/MC_JoinObj.tla, shapes and plans: spec/JoinCalls.tla) ----
+SHAPES = ['same', 'copy', 'lcopy', 'project', 'derive', 'dictof', 'equal', 'distinct']
+
+
+def operands(h, ids):
+    """the base object X and the pair (base side, other side) for the operand shape of history h"""
+    X = table_from(h['x'], ids)
+    shape = h['shape']
+    if shape == 'same':
+        return X, X, X                                      # the very same object on both sides
+    if shape == 'copy':
+        return X, X, X.copy()                               # a new table object on X's column lists
+    if shape == 'lcopy':
+        return X, X.copy(), X
+    if shape == 'project':
+        return X, X, X[['a', 'b']]
+    if shape == 'derive':
+        return X, X, X(q=lambda p: p + 100)
+    if shape == 'dictof':
+        return X, X, {c: dict.__getitem__(X, c) for c in dict.keys(X)}     # plain dict holding X's column lists
+    if shape in ('equal', 'distinct'):
+        return X, X, table_from(h['yd'], ids)               # built independently
+    raise ValueError(shape)
+
+
+def run_history(h, family, obs, meta):
+    """replay one history of TLC on real objects: calls are recorded (operands read immediately before and after), edits overwrite
+    one key cell of X in place through its column list"""
+    ids = IdMap()
+    X, L, R = operands(h, ids)
+    for k, st in enumerate(h['steps']):
+        if st['kind'] == 'edit':
+            dict.__getitem__(X, st['col'])[st['row'] - 1] = untag(st['val'], ids)
+            continue
+        left, right = (L, R) if st['dir'] == 'xy' else (R, L)
+        bx, by = proj_table(left, ids), proj_table(right, ids)
+        f = render_call(left, right, st['lk'], st['rk'], st['op'], st['mode'], st['spelling'], st['how'], len(bx['rows']) + len(by['rows']) + k)
+        if TIMEOUTS[0] >= 25:
+            return
+        status, val = watchdog.call(f, seconds=3.0)
+        if status == 'timeout':
+            TIMEOUTS[0] += 1
+        if status == 'ok':
+            out = proj_table(val, ids); out['kind'] = 'table'
+        elif status == 'exc':
+            out = {'kind': 'exc', 'cls': type(val).__name__}
+        else:
+            out = {'kind': 'timeout'}
+        obs.append({'op': st['op'], 'x': bx, 'y': by, 'lk': st['lk'], 'rk': st['rk'], 'mode': st['mode'], 'implicit': st['implicit'],
+                    'spelling': st['spelling'], 'how': st['how'], 'shape': h['shape'], 'dir': st['dir'], 'out': out,
+                    'x_after': proj_table(left, ids), 'y_after': proj_table(right, ids)})
+        meta[len(obs) - 1] = {'family': family, 'hist': h, 'step': k}
+
+
+def rand_history(rng, catalogue):
+    """a larger random base table (duplicate and mixed keys), a random shape, three or four steps from TLC's plan catalogue"""
+    pool = [["n", 0], ["i", 1], ["i", 2], ["f", [1, 1]], ["f", [2, 1]], ["f", [5, 2]], ["nan", 1], ["nan", 2], ["nan", 3],
+            ["s", "a"], ["s", "b"], ["d", [730120, 0, 0]], ["i", 0], ["f", [0, 1]], ["inf", 1], ["inf", -1]]
+    sub = rng.sample(pool, rng.choice([2, 3, 4, 6]))
+    n = rng.choice([1, 2, 3, 5, 7])
+    x = {'cols': ['a', 'b', 'p'], 'rows': [{'a': rng.choice(sub), 'b': rng.choice(sub), 'p': ["i", i + 1]} for i in range(n)]}
+    shape = rng.choice(SHAPES)
+    yd = x if shape == 'equal' else {'cols': ['a', 'b', 'q'], 'rows': [{'a': rng.choice(sub), 'b': rng.choice(sub), 'q': ["i", 11 + i]} for i in range(rng.choice([0, 1, 3]))]}
+    steps = []
+    for k in range(rng.choice([3, 4])):
+        if k in (1, 2) and rng.random() < 0.3:
+            steps.append({'kind': 'edit', 'col': rng.choice(['a', 'b']), 'row': rng.randrange(n) + 1, 'val': rng.choice(sub)})
+        else:
+            steps.append(rng.choice(catalogue[shape]))
+    return {'x': x, 'yd': yd, 'shape': shape, 'steps': steps}
 
 
 def decorate(rng, kx, ky, variant):
@@ -177,16 +257,43 @@ def rand_tables(rng):
     return t(rng.choice([0, 1, 2, 3, 5, 8])), t(rng.choice([0, 1, 2, 3, 5, 8]))
 
 
+def check_enumeration(hists, what, need_edit):
+    """vacuity (TLC's -coverage cannot digest MC_JoinObj): every shape, op, direction, form and step kind must occur in what TLC enumerated"""
+    from harness.core import Machinery
+    seen = {('shape', h['shape']) for h in hists}
+    for h in hists:
+        for st in h['steps']:
+            seen.add(('kind', st['kind']))
+            if st['kind'] == 'call':
+                seen |= {('op', st['op']), ('dir', st['dir']), ('how', st['how']), ('mode', st['mode']), ('spelling', st['spelling']),
+                         ('keys', 'equal' if st['lk'] == st['rk'] else 'different'),
+                         ('computed', any(k[0] == 'fn' for k in st['lk'] + st['rk']))}
+    want = ({('shape', x) for x in SHAPES} | {('op', x) for x in ('join', 'xor', 'leftjoin')} | {('dir', 'xy'), ('dir', 'yx'), ('how', 'method'), ('how', 'operator')}
+            | {('mode', m) for m in MODES} | {('spelling', x) for x in ('str', 'list', 'tuple', 'same', 'none')}
+            | {('keys', 'equal'), ('keys', 'different'), ('computed', True), ('computed', False), ('kind', 'call')} | ({('kind', 'edit')} if need_edit else set()))
+    if want - seen:
+        raise Machinery('vacuous: %s never enumerated %s' % (what, sorted(want - seen)))
+
+
 def run(ctx):
     ctx.rule = ('TLC enumerates pairs of key tables (<= 2-3 rows a side, 1-2 key columns, keys None/ints/floats/NaN objects/strings/dates); '
                 'the driver decorates each with row ids / shared columns / renamed or computed keys and calls join, *, xor, / in rotating '
                 'spellings and modes under a CPU-time watchdog; plus random tables (<= 8 rows, 1-3 key columns, many-to-many keys). '
+                'TLC also enumerates histories on ONE pair of operand objects (MC_JoinObj): base table X (<= 2-3 rows, two key columns) and a second '
+                'operand that is X itself / X.copy() / X[cols] / X(q=..) / a dict of X\'s column lists / an equal / an unrelated table, with call '
+                'plans (13 key plans with equal, different, crossed and computed keys x modes x spellings x join, xor, x*y + x/y, both '
+                'directions, method and operator forms) and in-place edits of key cells between calls; plus random larger histories. '
                 'Every call is judged by Trace_Join (bag equality with the law-level join). Non-trivial = at least one matching and one non-matching pair.')
     ctx.mc('MergeJoin', 'MergeJoin_fixed.cfg', deadlock=False)
     ctx.mc('MC_Join', 'MC_Join_one2.cfg')
     ctx.mc('MC_Join', 'MC_Join_two1.cfg' if ctx.quick else 'MC_Join_two2.cfg')
+    # operand objects and histories: the mechanism of a whole call refines the law for every shape of operand pair (coverage off: the
+    # cost model of -coverage does not terminate on this module; vacuity is checked on the generated histories instead)
+    ctx.mc('MC_JoinObj', 'MC_JoinObj_quick.cfg' if ctx.quick else 'MC_JoinObj_thorough.cfg', coverage=False)
     if not ctx.quick:
         ctx.mc('MergeJoin', 'MergeJoin_orig.cfg', must_fail='Termination', deadlock=False)
+        ctx.mc('MC_JoinObj', 'MC_JoinObj_guarded.cfg', coverage=False)
+        ctx.mc('MC_JoinObj', 'MC_JoinObj_unguarded.cfg', coverage=False, must_fail='MechRefinesLaw')    # why aliasing has to be enumerated
     obs = []
     for g, nplans, cap in ([('MC_Join_gen_one2.cfg', 2, 2500), ('MC_Join_gen_two1.cfg', 3, 1500)] if ctx.quick else
                            [('MC_Join_gen_one3.cfg', 3, 40000), ('MC_Join_gen_two2.cfg', 3, 30000)]):
@@ -202,22 +309,63 @@ def run(ctx):
         kx, ky = rand_tables(ctx.rng)
         run_case(ctx, kx, ky, i, 3, obs)
         ctx.note(('rand', i))
+    # ---- one pair of operand objects: every single call (thinned by Stride), then simulated histories with edits, then random ones
+    meta = {}
+    singles = ctx.generate('MC_JoinObj', 'MC_JoinObj_gen1.cfg' if ctx.quick else 'MC_JoinObj_gen1t.cfg')
+    check_enumeration(singles, 'MC_JoinObj_gen1', False)
+    catalogue = {}
+    for h in singles:
+        catalogue.setdefault(h['shape'], {})[json.dumps(h['steps'][-1], sort_keys=True)] = h['steps'][-1]
+    catalogue = {sh: [v for _, v in sorted(d.items())] for sh, d in catalogue.items()}
+    cap = 3500 if ctx.quick else 60000
+    if len(singles) > cap:
+        singles = ctx.rng.sample(singles, cap)
+    for h in singles:
+        run_history(h, 'single', obs, meta)
+    sims = []
+    for cfg, num, depth in ([('MC_JoinObj_sim.cfg', 50, 7)] if ctx.quick else [('MC_JoinObj_sim.cfg', 600, 7), ('MC_JoinObj_sim3.cfg', 300, 9)]):
+        sims += ctx.generate('MC_JoinObj', cfg, simulate=num, depth=depth, seed=ctx.seed + 1, workers=1)
+    check_enumeration(sims, 'MC_JoinObj_sim', True)
+    for h in sims:
+        run_history(h, 'history', obs, meta)
+    for i in range(150 if ctx.quick else 3000):
+        run_history(rand_history(ctx.rng, catalogue), 'random_history', obs, meta)
+    for k, m in meta.items():
+        st = m['hist']['steps'][m['step']]
+        if m['hist']['shape'] != 'distinct' and st['lk'] != st['rk'] and obs[k]['out'].get('rows'):
+            ctx.note(('alias', m['hist']['shape'], json.dumps([st['lk'], st['rk']]), st['op'], json.dumps(obs[k]['x'])))
+    ctx.sample({'history': sims[len(sims) // 2]})
     ctx.evals += len(obs)
     bad = ctx.validate('Trace_Join', obs)
     for line, clause in bad:
         o = obs[line - 1]
         kinds = sorted({v[0] for t in (o['x'], o['y']) for r in t['rows'] for c, v in r.items() if c in ('a', 'b', 'c', 'ka', 'kb')})
-        ctx.violation(clause, {'op': o['op'], 'how': o['how'], 'spelling': o['spelling'], 'mode': o['mode'], 'lk': o['lk'], 'rk': o['rk'],
-                               'key_kinds': kinds, 'x': o['x'], 'y': o['y']}, {'out': o['out'], 'x_after': o['x_after'], 'y_after': o['y_after']})
+        case = {'op': o['op'], 'how': o['how'], 'spelling': o['spelling'], 'mode': o['mode'], 'lk': o['lk'], 'rk': o['rk'],
+                'key_kinds': kinds, 'x': o['x'], 'y': o['y']}
+        if line - 1 in meta:
+            m = meta[line - 1]
+            case.update({'family': m['family'], 'shape': o['shape'], 'dir': o['dir'], 'hist': m['hist'], 'step': m['step']})
+        ctx.violation(clause, case, {'out': o['out'], 'x_after': o['x_after'], 'y_after': o['y_after']})
     ctx.sample({'observation': {k: obs[7][k] for k in ('op', 'x', 'y', 'lk', 'rk', 'mode', 'spelling', 'out')}})
     ctx.exhaustive = False
     ctx.assumptions += ['xor with no key column returns x whole (named deviation XorNoKey)',
                         'key cells of the result are compared with the key equality of the statement (1 may come back as 1.0), other cells exactly',
-                        'termination of the real calls is observed with a 3 s CPU-time watchdog per call (correct evaluation takes < 5 ms); after 25 timeouts the remaining calls are skipped']
+                        'termination of the real calls is observed with a 3 s CPU-time watchdog per call (correct evaluation takes < 5 ms); after 25 timeouts the remaining calls are skipped',
+                        'one column per name: a column of the other side that bears the name of a key column of the result is not carried (named deviation KeyShadows; x.join(x, "a", "b") has one column a = the key)',
+                        'x*y + x/y is evaluated with dictable.__add__ (rows of x without partner get None in the columns x lacks); the composite is only formed with at least one key',
+                        'in a history every call is judged against the operands as read immediately before it; what an in-place edit of X does to an object sharing its lists is observed, not prescribed',
+                        'TLC -coverage is switched off for MC_JoinObj (its cost model does not terminate on the module); instead the generated histories must contain every shape, op, mode, spelling, direction, form and step kind']
 
 
 def replay(ctx, body):
     c = body['case']
+    if 'hist' in c:
+        obs, meta = [], {}
+        run_history(c['hist'], c.get('family', 'history'), obs, meta)
+        bad = ctx.validate('Trace_Join', obs)
+        hit = [b for b in bad if meta[b[0] - 1]['step'] == c['step']]
+        print('replay:', 'REJECTED %s' % bad if hit else 'accepted', str([o['out'] for k, o in enumerate(obs) if meta[k]['step'] == c['step']])[:300])
+        return 1 if hit else 0
     o = observe(c['x'], c['y'], c['lk'], c['rk'], c['op'], c['mode'], c['spelling'], c['how'])
     bad = ctx.validate('Trace_Join', [o])
     print('replay:', 'REJECTED %s' % bad if bad else 'accepted', str(o['out'])[:300])
